@@ -211,6 +211,17 @@ pub fn run(rep: &mut Report, tier: Tier) {
         }
     });
     rep.absorb(t);
+    // ---- pumped linear families
+    let all = refmodel::pump::all(tier == Tier::Thorough);
+    let np = all.len();
+    let t = explore::par_tally(all, |(fam, n, v), t| {
+        check_js(&v, t);
+        if !v.has_duplicate_keys() && !matches!(fam, refmodel::pump::Family::Integer | refmodel::pump::Family::Fraction) {
+            check_sj(&rv_to_sj(&v), t);
+        }
+        t.nontrivial(&(format!("{fam:?}"), n));
+    });
+    rep.absorb(t);
     // ---- strings and keys
     let mut t = Tally::new();
     for s in ["", "a", "\"\\/\u{8}\u{c}\n\r\t\u{1}\u{1f}\u{7f}\u{e9}\u{2028}\u{1f600}\u{ffff}", "a-string-longer-than-sixteen-bytes", crate::c16::TOKEN] {
@@ -220,7 +231,7 @@ pub fn run(rep: &mut Report, tier: Tier) {
     }
     rep.absorb(t);
     rep.tally.sample(json!({"serde_json_number": "9.999999999999999e91", "json_syntax_spelling": "100e90"}));
-    rep.bounds = json!({"f64_patterns": 2047 * nm * 2, "number_spellings": nsp, "max_spelling_length": l, "structure_values": nv, "structure_max_nodes": n, "out_of_range_magnitudes": 9});
+    rep.bounds = json!({"f64_patterns": 2047 * nm * 2, "number_spellings": nsp, "max_spelling_length": l, "structure_values": nv, "structure_max_nodes": n, "out_of_range_magnitudes": 9, "pumped_values": np});
 }
 
 pub fn replay(case: &explore::serde_json::Value) -> Result<(), String> {
